@@ -339,6 +339,36 @@ func init() {
 			case 4:
 				kind = "zero"
 				m = matrix.Matrix3{}
+			case 5:
+				// structure: a rotation about one axis, a block matrix 1 (+) 2x2, a symmetric matrix with one
+				// off-diagonal pair made unequal - exact equalities between entries that random matrices never have
+				ax := rng.Intn(3)
+				th := rng.Float64() * 6.2
+				cs, sn := math.Cos(th), math.Sin(th)
+				i1, i2 := (ax+1)%3, (ax+2)%3
+				switch rng.Intn(3) {
+				case 0:
+					kind = "rotation-about-axis"
+					m = matrix.Matrix3{}
+					m[ax][ax] = 1
+					m[i1][i1], m[i2][i2], m[i1][i2], m[i2][i1] = cs, cs, sn, -sn
+				case 1:
+					kind = "block-1+2x2"
+					sc := m[ax][ax]
+					a, b2, c2, d := m[i1][i1], m[i1][i2], m[i2][i1], m[i2][i2]
+					m = matrix.Matrix3{}
+					m[ax][ax] = sc + 5
+					m[i1][i1], m[i1][i2], m[i2][i1], m[i2][i2] = a+5, b2, c2, d+5
+				default:
+					kind = "symmetric-but-one-pair"
+					for a := 0; a < 3; a++ {
+						for b := a + 1; b < 3; b++ {
+							m[b][a] = m[a][b]
+						}
+						m[a][a] += 9
+					}
+					m[i1][i2] += 0.5
+				}
 			}
 			in := map[string]interface{}{"kind": kind, "matrix": fmt.Sprint(m)}
 			c.res.count("matrix-"+kind, matHex(m), true)
